@@ -126,7 +126,7 @@ def ch_timeline(ctx) -> Channel:
         if mode == "vod":
             _, rep, timing = segpure.make_objects(lay, "vod")
             cases.append((lay, rep, timing, "vod", 0, 0))
-            lines.append(f"timeline vod {lay.durs_arg()} {lay.R}")
+            lines.append(f"timeline vod {lay.durs_arg()}")
             continue
         M_us = sum(lay.durs) * 10 ** 6 // lay.ts
         E_us = rng.choice([
